@@ -476,6 +476,6 @@ static void finalize(const Plan &plan, EndReason r) {
     (void)plan;
 }
 
-static struct Reg { Reg() { register_family(Family{"attr", gen, setup, finalize, nullptr, nullptr}); } } reg;
+static struct Reg_attr { Reg_attr() { register_family(Family{"attr", gen, setup, finalize, nullptr, nullptr}); } } reg;
 
 }  // namespace xs
